@@ -8,6 +8,9 @@ CHECKS = {
  'C17': ('cfgx', 'exhaustive enumeration of (source rule x full-policy configuration) on the real prebuild binary, bounded by the shipped tree and the 90 --full configurations',
          'Every source rule with an unconfined fallback is located in every --full build of the real binary and its built exec mode is inspected; the matching normal build is the control. The domain is finite and fully enumerated in the thorough tier (90 configurations x 335 rules).',
          'harness tokenizer (engine/scan.py) reads the rules; builds under the all-default map schedule', 'DESIGN.md §4 C17'),
+ 'C05': ('cfgx', 'exhaustive enumeration of every block header of every built profile over all (none, complain, enforce) build triples of the real prebuild binary, plus every generated header layout of a small alphabet through the real builders; independent block scanner as oracle',
+         'All 60 (distribution, ABI, version, full) triples of builds are produced by the real binary in the thorough tier and every block header is compared between modes; 5580 generated header layouts (main flags x attachment x 0-2 sub-profiles x 0-1 hat) go through the real Complain/Enforce builders.',
+         'block scanner of engine/scan.py; flags compared as sets, remaining header tokens compared token by token', 'DESIGN.md §4 C05'),
 }
 PENDING = {}
 def main():
